@@ -2,7 +2,7 @@
    bool, option, unit, prod, list, sumbool, sumor map to OCaml's; Z, positive,
    nat stay the extracted inductives.  No Extract Constant. *)
 From Coq Require Import Extraction ExtrOcamlBasic.
-From H263V Require Import base.Prelude model.Deblock model.Yuv model.Types model.Tables model.Reader model.Header model.Syntax model.F32 model.Recon model.Decoder.
+From H263V Require Import base.Prelude model.Deblock model.Yuv model.Types model.Tables model.Reader model.Header model.Syntax model.F32 model.Recon model.Decoder model.Pipeline.
 Separate Extraction
   Deblock.deblock Deblock.process Deblock.process_lane Deblock.annexJ Deblock.quant_to_strength
   Deblock.table_J2 Deblock.annexJ_flat Deblock.updown_ramp
@@ -13,4 +13,4 @@ Separate Extraction
   Recon.inverse_rle_block Recon.predict_candidate Recon.mv_decode Recon.halfpel_decode Recon.idct_channel
   Recon.gather_go Recon.plane_data Recon.new_plane Recon.dequant Recon.average_sum_of_mvs Recon.median_of
   Decoder.new_state Decoder.decode_next_picture Decoder.cleanup_buffers Decoder.get_last_picture
-  Decoder.get_reference_picture Decoder.next_quant.
+  Decoder.get_reference_picture Decoder.next_quant Pipeline.pipeline.
